@@ -156,7 +156,7 @@ def structure_ok(doc: str, spec: Dict[str, Any]) -> bool:
         return int(m.group(1)) != 1 or "<" in m.group(2) or "{" in m.group(2)
     if int(m.group(1)) != 1 or "<" in m.group(2):
         return False
-    return html.unescape(m.group(2)).strip() == html.unescape(spec["heading_plain"]).strip()
+    return html.unescape(m.group(2)).strip() == spec["heading_plain"].strip()
 
 
 def make_case(doc: str, spec: Dict[str, Any], tags: List[str]) -> Case:
@@ -249,6 +249,16 @@ TITLES: List[Tuple[str, str]] = [
     ("Stew serves 4 or so", "Stew serves 4 or so"), ("AT&amp;T stew", "AT&T stew"), ("1\\. Bread", "1. Bread"),
     ("Bread \\*really\\*", "Bread *really*"), ("makes", "makes"), ("Make", "Make"), ("Serving suggestions", "Serving suggestions"),
 ]
+# titles whose LITERAL text looks like a character reference: the entities must be decoded exactly once
+ENTITY_LIKE_TITLES: List[Tuple[str, str]] = [
+    ("Escaping \\&lt; in HTML", "Escaping &lt; in HTML"), ("Tom &amp;amp; Jerry", "Tom &amp; Jerry"),
+    ("a &amp;lt; b", "a &lt; b"), ("it&amp;#x27;s", "it&#x27;s"), ("Grade &#65;", "Grade A"),
+    ("Grade &amp;#65;", "Grade &#65;"), ("\\&quot;quoted\\&quot;", "&quot;quoted&quot;"), ("&amp;gt; than", "&gt; than"),
+    ("&amp;amp;amp;", "&amp;amp;"), ("AT\\&amp;T", "AT&amp;T"), ("&quot;hi&quot;", '"hi"'), ("x &amp;nbsp; y", "x &nbsp; y"),
+    ("&amp;copy; 2020", "&copy; 2020"), ("1 &lt; 2 \\&amp;lt; 3", "1 < 2 &amp;lt; 3"), ("&#38;lt;", "&lt;"),
+    ("&#x26;amp; co", "&amp; co"),
+]
+TITLES += ENTITY_LIKE_TITLES
 PERCENT_TITLES = [("100% rye", "100% rye"), ("50%", "50%"), ("Rye (100%)", "Rye (100%)")]
 MARKUP_TITLES = ["*Spam*", "`code` pie", "[Spam](http://x)", "Spam <b>bold</b>", "Spam **and** eggs", "{2} eggs", "Eggs {1/2}",
                  "![img](a.png) cake", "<span>x</span>"]
@@ -307,9 +317,11 @@ def gen_doc(rng: random.Random, phrases: List[List[str]]) -> Tuple[str, Dict[str
     kind = rng.choices(["phrase", "plain", "nearmiss", "markup", "percent", "undocumented"], [10, 3, 4, 2, 1, 1])[0]
     src, plain = rng.choice(TITLES)
     inline = src
+    plain_full = plain
     if kind == "percent":
         src, plain = rng.choice(PERCENT_TITLES)
         inline = src
+        plain_full = plain
         spec["percent"] = True
         kind = rng.choice(["phrase", "plain"])
         tags.append("title:percent")
@@ -319,7 +331,9 @@ def gen_doc(rng: random.Random, phrases: List[List[str]]) -> Tuple[str, Dict[str
         digits, huge = gen_number(rng)
         sp1 = rng.choice(SPACINGS)
         text_ph = rng.choice(SPACINGS).join(words)
-        inline = src + sp1 + text_ph + rng.choice(SPACINGS) + digits
+        sp2 = rng.choice(SPACINGS)
+        inline = src + sp1 + text_ph + sp2 + digits
+        plain_full = plain + (sp1 + text_ph + sp2 + digits).replace("&nbsp;", "\xa0")
         spec.update(phrase=" ".join(ph), n=int(digits) if not huge else None, title=plain, huge=huge)
         tags += ["phrase:" + " ".join(ph), "digits:" + ("1" if len(digits) == 1 else "2-3" if len(digits) < 4 else
                                                         "4300" if len(digits) == 4300 else "4301" if huge else "long")]
@@ -332,6 +346,7 @@ def gen_doc(rng: random.Random, phrases: List[List[str]]) -> Tuple[str, Dict[str
         end = rng.choice([" 4", " x4", " for four", " for 4 people", " for4", "for 4", " serves: 4", " for 4.", " to 4",
                           " make 4", " to mak 4", " for -4", " for 4 5", " for \u0664", " forr 4", " 4 for"])
         inline = src + end
+        plain_full = plain + end
         spec.update(title=plain + end)
         if re.search(r"(^|\s)(to|serve|serves|make|makes|for|serving)$", plain, re.I):
             spec["lenient"] = True
@@ -339,6 +354,7 @@ def gen_doc(rng: random.Random, phrases: List[List[str]]) -> Tuple[str, Dict[str
     elif kind == "undocumented":
         end = rng.choice([" serve 4", " to serves 4", " To  Serves 12"])
         inline = src + end
+        plain_full = plain + end
         spec.update(lenient=True, title=None)
         tags.append("ending:undocumented-form")
     elif kind == "markup":
@@ -377,7 +393,9 @@ def gen_doc(rng: random.Random, phrases: List[List[str]]) -> Tuple[str, Dict[str
         post += ["```recipe", "1 egg", "```", ""]
     doc = "\n".join(pre + lines + post)
     spec["heading"] = inline[:200]
-    spec["heading_plain"] = inline.replace("\\", "")
+    spec["heading_plain"] = plain_full
+    if any(src == s0 for s0, _ in ENTITY_LIKE_TITLES) and kind != "markup":
+        tags.append("title:entity-like")
     tags.append("kind:" + kind)
     return doc, spec, tags
 
